@@ -143,7 +143,7 @@ Canon(fn) == CASE fn \in {"==", "eq", "equal"} -> "equal"
 \* functions documented to modify their target
 Mutators == {"set", "setall", "del", "delall", "append"}
 \* functions with a clause in Apply/Call below; every other function is Opaque
-Specified == {"asm", "set", "setall", "get", "getall", "del", "delall", "cond", "and", "or", "not", "equal", "neq",
+Specified == {"at", "root", "asm", "set", "setall", "get", "getall", "del", "delall", "cond", "and", "or", "not", "equal", "neq",
               "lt", "lte", "gt", "gte", "sum", "dif", "product", "quotient", "mod", "list", "map?", "array?", "string?",
               "num?", "bool?", "null?", "size", "nth", "append", "reverse", "sort", "quote"}
 
@@ -253,7 +253,14 @@ HasMut(n) == CASE n.t = "call" -> Canon(n.fn) \in Mutators \/ n.fn = "each" \/ \
                [] n.t = "pair" -> HasMut(n.c) \/ HasMut(n.v)
                [] OTHER -> FALSE
 
-RECURSIVE Eval(_, _, _), EvalList(_, _, _, _), Chain(_, _, _, _), Cond(_, _, _)
+RECURSIVE Eval(_, _, _), EvalList(_, _, _, _), Chain(_, _, _, _), Cond(_, _, _), PathArg(_, _, _)
+\* byte spelling of the plain member names the specification knows (string values are byte sequences, member names atoms)
+Names == [src |-> <<115, 114, 99>>, asm |-> <<97, 115, 109>>, a |-> <<97>>, b |-> <<98>>, c |-> <<99>>, d |-> <<100>>, e |-> <<101>>,
+          f |-> <<102>>, k |-> <<107>>, l |-> <<108>>, n |-> <<110>>, s |-> <<115>>, t |-> <<116>>, v |-> <<118>>, x |-> <<120>>,
+          y |-> <<121>>, z |-> <<122>>, o |-> <<111>>, sel |-> <<115, 101, 108>>, keys |-> <<107, 101, 121, 115>>, ll |-> <<108, 108>>,
+          zz |-> <<122, 122>>, q |-> <<113>>, r |-> <<114>>]
+NameOf(bs) == IF \E x \in DOMAIN Names : Names[x] = bs THEN CHOOSE x \in DOMAIN Names : Names[x] = bs ELSE ""
+PathArg(n, root, at) == IF n.t = "path" THEN Ok(n, root, at) ELSE Eval(n, root, at)
 EvalList(args, root, at, acc) ==
   IF args = <<>> THEN [k |-> "ok", vs |-> acc, root |-> root, at |-> at]
   ELSE LET r == Eval(args[1], root, at) IN
@@ -285,11 +292,15 @@ Contains(v, x) == \/ v = x
 Mutate(f, args, root, at) ==
   LET need == IF f \in {"set", "setall"} THEN 2 ELSE 1 IN
   IF Len(args) # need THEN AnyR
-  ELSE IF args[1].t # "path" THEN AnyR
-  ELSE IF ~Simple(args[1]) \/ args[1].fr = <<>> THEN AnyR
-  ELSE LET p == args[1]
-           rv == IF need = 2 THEN Eval(args[2], root, at) ELSE Ok(Null, root, at) IN
+  ELSE IF args[1].t \notin {"path", "call"} \/ (args[1].t = "call" /\ need = 1) THEN AnyR
+  ELSE LET pr == PathArg(args[1], root, at) IN     \* the path is given literally or computed by a nested call (root / at)
+  IF pr.k # "ok" THEN [k |-> pr.k]
+  ELSE IF pr.v.t # "path" THEN AnyR
+  ELSE IF ~Simple(pr.v) \/ pr.v.fr = <<>> THEN AnyR
+  ELSE LET p == pr.v
+           rv == IF need = 2 THEN Eval(args[2], pr.root, pr.at) ELSE Ok(Null, pr.root, pr.at) IN
        IF rv.k # "ok" THEN [k |-> rv.k]
+       ELSE IF rv.v.t \notin ValueTags THEN AnyR                    \* a path object as data is outside the value universe
        ELSE IF rv.at.al THEN AnyR                                   \* aliasing allowance
        ELSE IF need = 2 /\ Contains(rv.v, rv.root) THEN AnyR
        ELSE IF need = 2 /\ rv.v.t \in {"arr", "obj"} /\ \E j \in 0..(Len(p.fr) - 1) : Look(rv.root, SubSeq(p.fr, 1, j)) = rv.v
@@ -305,6 +316,7 @@ Eval(n, root, at) ==
     [] n.t = "path" ->
          IF ~Simple(n) THEN AnyR
          ELSE IF n.fr = <<>> THEN (IF n.at THEN [Ok(AtVal(root, at), root, at) EXCEPT !.isAt = TRUE] ELSE Ok(root, root, at))
+         ELSE IF n.at /\ AtVal(root, at).t \notin ValueTags THEN AnyR
          ELSE LET r == Look(IF n.at THEN AtVal(root, at) ELSE root, n.fr) IN
               IF r # Missing /\ r.t = "other" THEN AnyR ELSE Ok(IF r = Missing THEN Null ELSE r, root, at)
     [] n.t = "call" ->
@@ -321,15 +333,29 @@ Eval(n, root, at) ==
                 IF n.a = <<>> THEN Ok(Null, root, at)
                 ELSE IF n.a[1].t \in ValueTags THEN Ok(n.a[1], root, at) ELSE AnyR
            [] f \in {"get", "getall"} ->
-                IF Len(n.a) \notin {1, 2} \/ n.a[1].t # "path" THEN AnyR
-                ELSE IF ~Simple(n.a[1]) THEN AnyR
-                ELSE LET d == IF Len(n.a) = 2 THEN Eval(n.a[2], root, at)
-                              ELSE Ok(IF n.a[1].at THEN AtVal(root, at) ELSE root, root, at) IN
+                IF Len(n.a) \notin {1, 2} \/ n.a[1].t \notin {"path", "call"} THEN AnyR
+                ELSE LET pr == PathArg(n.a[1], root, at) IN
+                IF pr.k # "ok" THEN [k |-> pr.k]
+                ELSE IF pr.v.t # "path" THEN AnyR
+                ELSE IF ~Simple(pr.v) THEN AnyR
+                ELSE LET d == IF Len(n.a) = 2 THEN Eval(n.a[2], pr.root, pr.at)
+                              ELSE Ok(IF pr.v.at THEN AtVal(pr.root, pr.at) ELSE pr.root, pr.root, pr.at) IN
                      IF d.k # "ok" THEN [k |-> d.k]
-                     ELSE LET r == Look(d.v, n.a[1].fr) IN
+                     ELSE IF d.v.t \notin ValueTags THEN AnyR
+                     ELSE LET r == Look(d.v, pr.v.fr) IN
                           IF r # Missing /\ r.t = "other" THEN AnyR
                           ELSE IF f = "get" THEN Ok(IF r = Missing THEN Null ELSE r, d.root, d.at)
                           ELSE Ok(IF r = Missing THEN Arr(<<>>) ELSE Arr(<<r>>), d.root, d.at)
+           \* at / root: "Forms a path starting with @ [root: the code and the name say $; the description says @ for both].
+           \* The remaining string arguments are joined with a '.' and parsed to form a jp.Expr."  Specified for plain member
+           \* names; root only where @ and $ coincide (top level)
+           [] f \in {"at", "root"} ->
+                LET e == EvalList(n.a, root, at, <<>>) IN
+                IF e.k # "ok" THEN AnyR
+                ELSE IF e.vs = <<>> \/ \E j \in 1..Len(e.vs) : e.vs[j].t # "str" \/ NameOf(e.vs[j].v) = "" THEN AnyR
+                ELSE IF f = "root" /\ e.at.mode # "root" THEN AnyR
+                ELSE IF \E j \in 1..Len(n.a) : HasMut(n.a[j]) THEN AnyR
+                ELSE Ok([t |-> "path", at |-> f = "at", fr |-> [j \in 1..Len(e.vs) |-> [k |-> "c", s |-> NameOf(e.vs[j].v), i |-> 0]]], e.root, e.at)
            [] f = "sort" ->
                 IF Len(n.a) # 2 \/ n.a[2].t # "path" THEN AnyR
                 ELSE IF ~Simple(n.a[2]) THEN AnyR
@@ -409,8 +435,8 @@ TotalLaw == last.r.k \in {"ok", "err", "any"} /\ root.t = "obj"
 \* the frame predicate is consistent with the semantics: a plan the predicate calls harmless leaves src alone
 FrameLaw == (last.r.k = "ok" /\ ~MayTouchSrc(last.p)) => SrcOf(last.r.root) = SrcOf(last.pre)
 \* set-then-get: after an ok [set p v] with a literal v, looking p up yields v
-SetGetLaw == (last.r.k = "ok" /\ last.p.t = "call" /\ last.p.fn = "set" /\ last.p.a[2].t \in ValueTags)
+SetGetLaw == (last.r.k = "ok" /\ last.p.t = "call" /\ last.p.fn = "set" /\ last.p.a[1].t = "path" /\ last.p.a[2].t \in ValueTags)
              => VEq(Look(last.r.root, last.p.a[1].fr), last.p.a[2])
 \* del-then-get: after an ok [del p] the path is gone
-DelGetLaw == (last.r.k = "ok" /\ last.p.t = "call" /\ last.p.fn = "del") => Look(last.r.root, last.p.a[1].fr) = Missing
+DelGetLaw == (last.r.k = "ok" /\ last.p.t = "call" /\ last.p.fn = "del" /\ last.p.a[1].t = "path") => Look(last.r.root, last.p.a[1].fr) = Missing
 =============================================================================
